@@ -8,7 +8,7 @@ for d in Model Lemmas Props; do
 done
 cp $W/lean/props/$P.json lean/props/
 cp $W/harness/props/$p.py harness/props/
-for f in $W/harness/props/${p}_*.py $W/harness/${p}*.py $W/harness/props/${p}*.c $W/harness/props/${p}*.txt; do [ -e "$f" ] && cp "$f" $(echo $f | sed "s|$W/||") && echo "  extra $(basename $f)"; done
+for f in $W/harness/props/${p}?*.py $W/harness/${p}*.py $W/harness/props/${p}*.c $W/harness/props/${p}*.txt; do [ -e "$f" ] && cp "$f" $(echo $f | sed "s|$W/||") && echo "  extra $(basename $f)"; done
 cp $W/tools/claims/$P.json tools/claims/
 [ -d $W/corpus/$P ] && mkdir -p corpus && cp -r $W/corpus/$P corpus/
 grep "property=$P " $W/known_findings.txt || true
